@@ -5,6 +5,10 @@ from harness import jsonvals as jv, sessions
 from harness.props import conn_common as cm, codec_common as cc
 
 NASTY = [
+    # strings holding a surrogate code point that is not half of a pair (valid JSON; the library echoes ids and values in replies)
+    b'{"jsonrpc":"2.0","method":"ping","params":[],"id":"\\ud800"}', b'{"jsonrpc":"2.0","method":"m","params":"\\ud800","id":1}',
+    b'{"method":"m","params":"x\\udfffy","id":2}', b'[{"jsonrpc":"2.0","method":"m","params":"\\ud800","id":1},{"jsonrpc":"2.0","method":"ping","id":"\\udc00\\ud800"}]',
+    b'{"jsonrpc":"2.0","method":"\\ud800","id":3}',
     # ill-formed responses that also carry an unhashable id (the 1.0 class lets any id through)
     b'{"id":[1]}', b'{"result":1,"id":{"a":1}}', b'{"result":1,"error":2,"id":[]}', b'{"jsonrpc":"1.0","id":[1]}', b'{"error":null,"id":[[]]}',
     b'{"result":1,"error":null,"id":[]}', b'{"result":1,"error":null,"id":{"a":1}}', b'{"result":null,"error":"e","id":[[1]]}',
